@@ -52,9 +52,12 @@ func tagFilterParser(doc *Parser, start *Token, arguments *Parser) (INodeTag, *E
 		position: start,
 	}
 
-	wrapper, _, err := doc.WrapUntilTag("endfilter")
+	wrapper, endargs, err := doc.WrapUntilTag("endfilter")
 	if err != nil {
 		return nil, err
+	}
+	if endargs.Count() > 0 {
+		return nil, endargs.Error("Arguments not allowed here.", nil)
 	}
 	filterNode.bodyWrapper = wrapper
 
